@@ -129,6 +129,13 @@ def gen_ws(seed, pid, bias):
         opt['shuffle_seed'] = rng.randint(0, 9999)
     if rng.random() < bias.get('p_j', 0.25):
         opt['j'] = rng.randint(2, 4)
+    r_ = rng.random()
+    if r_ < bias.get('p_uf', 0.06):
+        opt[rng.choice(['unit', 'non_unit'])] = True
+    elif r_ < bias.get('p_uf', 0.06) + bias.get('p_levels', 0.08):
+        # levels (only meaningful in worlds that declare some, see p_level of the profile)
+        k = rng.choice(['all', 'at_level', 'only_level'])
+        opt[k] = True if k == 'all' else rng.choice([0, 1, 2, 3])
     if rng.random() < bias.get('p_t', 0.12):
         # a test filter (an import failure is no test: no pattern may filter it away)
         opt['t'] = rng.choice([['test_'], ['test_a', 'test_b'], ['TC0'], ['!test_c'],
